@@ -359,3 +359,35 @@ def inplace_on_argument_views(ctx, funcs=None):
                         if src is not None:
                             out.append((f, n, f"`{_U(n)[:60]}` writes its result into a (possible) view of the argument `{src}`"))
     return out, holders
+
+
+# ---------------------------------------------------------------- the weighted-tensor helper functions (primitives of the abstract domains)
+WT_UTILS = "leaspy.utils.weighted_tensor._utils"
+WT_HELPER_FORMS = {
+    # name: (confirmed canonical bodies, essential parts, what goes wrong)
+    "sum_dim": ({"$k1 = _get_dim($0, dim=$k1, but_dim=$k2); if isinstance($0, WeightedTensor); return $0.sum(fill_value=$k0, dim=$k1, **$kwargs); return $0.sum(dim=$k1, **$kwargs)",
+                 "$k1 = _get_dim($0, dim=$k1, but_dim=$k2); return $0.sum(dim=$k1, **$kwargs)"},
+                ["_get_dim($0, dim=$k1, but_dim=$k2)", "$0.sum(", "dim=$k1"],
+                "sum_dim no longer sums its argument (through WeightedTensor.sum when it is weighted) over the axes selected by dim / but_dim"),
+    "wsum_dim": ({"$k1 = _get_dim($0, dim=$k1, but_dim=$k2); return $0.wsum(fill_value=$k0, dim=$k1, **$kwargs)"},
+                 ["_get_dim($0, dim=$k1, but_dim=$k2)", "$0.wsum(", "dim=$k1"],
+                 "wsum_dim no longer returns WeightedTensor.wsum over the axes selected by dim / but_dim"),
+    "wsum_dim_return_weighted_sum_only": ({"return wsum_dim($0, fill_value=$k0, dim=$k1, but_dim=$k2, **$kwargs)[0]"}, ["wsum_dim($0,", "dim=$k1", "but_dim=$k2", ")[0]"],
+                                          "the 'weighted sum only' helper no longer returns the first component (the weighted sum) of wsum_dim"),
+    "wsum_dim_return_sum_of_weights_only": ({"return wsum_dim($0, fill_value=$k0, dim=$k1, but_dim=$k2, **$kwargs)[1]"}, ["wsum_dim($0,", "dim=$k1", "but_dim=$k2", ")[1]"],
+                                            "the 'sum of weights only' helper no longer returns the second component (the number of observed entries) of wsum_dim"),
+    "_get_dim": ({"if $k0 is not None and $k1 is not None; raise ValueError('`dim` and `but_dim` should not be both defined.'); if $k1 is not None; %0 = $0.ndim; if isinstance($k1, int); $k1 = {$k1}; "
+                  "$k1 = {%1 if %1 >= 0 else $0.ndim + %1 for %1 in $k1}; assert all((%1 >= 0 for %1 in $k1)), $k1; $k0 = tuple((%1 for %1 in range($0.ndim) if %1 not in $k1)); if $k0 is None; $k0 = (); return $k0"},
+                 ["%1 if %1 >= 0 else $0.ndim + %1", "for %1 in range($0.ndim) if %1 not in $k1", "return $k0"],
+                 "_get_dim no longer turns `but_dim` into the complementary set of axes (negative axes counted from the end)"),
+}
+
+
+def weighted_helper_forms(ctx, rid):
+    """The abstract domains treat sum_dim / wsum_dim(...) as primitives with their documented meaning; their (tiny) bodies are compared
+    with the confirmed canonical forms here, so that a change inside them is not invisible to the graph-level rules."""
+    from ..astq import canon_lines
+    for name, (confirmed, essential, bad) in WT_HELPER_FORMS.items():
+        f = ctx.ix.func(WT_UTILS, name, rid)
+        text = "; ".join(canon_lines(f.node, True, True))
+        ctx.form(rid, f, f.node, text, confirmed, essential, f"{name}: documented body", bad, construct=f"def {name}")
